@@ -166,11 +166,15 @@ func (s *Search) iterator() (it *iterator, err error) {
 func (s *Search) Delete() (err error) {
 	var it *iterator
 
-	if it, err = s.Iterator(); err != nil {
+	// objects are resolved and deleted in the same critical section
+	s.db.Lock()
+	defer s.db.Unlock()
+
+	if it, err = s.iterator(); err != nil {
 		return
 	}
 
-	return s.db.DeleteObjects(it)
+	return s.db.deleteObjects(it)
 }
 
 // Reverse the order the results are collected by Collect function
